@@ -309,8 +309,8 @@ func c15Run(r *kernel.Run, plan *c15Plan, concurrent bool, tag string) ([]c15Out
 func propC15(r *kernel.Run) {
 	tp := r.Tape
 	plan := &c15Plan{backend: Pick2(tp, "inmem", "storeonce"), sw: tp.Draw(2) == 0, loader: tp.Draw(3) == 0,
-		optLen: tp.Draw(13), optSpare: tp.Draw(9), acceptors: tp.Range(2, 4), base: tp.Draw(3) == 0}
-	n := tp.Range(2, 6)
+		optLen: tp.Draw(13), optSpare: tp.Draw(9), acceptors: tp.Range(2, r.Deep(4, 6)), base: tp.Draw(3) == 0}
+	n := tp.Range(2, r.Deep(6, 9))
 	var kinds []string
 	for i := 0; i < n; i++ {
 		c := &c15Client{idx: i, marker: fmt.Sprintf("client-marker-%d", i)}
